@@ -20,19 +20,19 @@ func c21ns(t time.Time) *big.Int {
 }
 
 func runC21(c *ev.Ctx) {
-	c.Rule = "status records whose five guarded timestamps (last connected, P2P synced, became validator, external self-event created / detected) are drawn from {zero time (also as the zero instant carrying a location, which is not the zero struct), 1970, now-{0,1ns,th-1,th,th+1}, now+{1ns,th}, +-100y, +-292y+-1s, +-300y, +-10000y} relative to several 'now' values, thresholds from {0,1ns,1s,1h,100y,MaxInt64-1,MaxInt64}, peers in {0,1}; " +
+	c.Rule = "status records whose five guarded timestamps (last connected, P2P synced, became validator, external self-event created / detected) are drawn from {zero time (also as the zero instant carrying a location, which is not the zero struct), 1970, now-{0,1ns,th-1,th,th+1}, now+{1ns,th}, +-100y, +-292y+-1s, +-300y, +-10000y} relative to several 'now' values, thresholds from {0,1ns,1s,1h,100y,MaxInt64-1,MaxInt64,-1ns,-1s,-100y,MinInt64+1,MinInt64} (a negative threshold admits instants up to that far in the future), peers in {0,1}; " +
 		"quick: each field swept over the full value list with the others valid, plus seeded random combinations; thorough: additionally all pairs of fields swept jointly. Oracle (big integers): err==nil <=> peers>0 and P2P synced is set and every timestamp is at least the threshold before now; " +
 		"for a time-based refusal the wait is > 0 and equals min(max over the fields of (threshold - elapsed), MaxInt64); DetectParallelInstance <=> created is not before startup and now - created < threshold. " +
 		"non-trivial = distinct records in which at least one field is exactly at threshold-1ns/threshold/threshold+1ns or beyond +-292 years"
-	c.Assumptions = []string{"thresholds are non-negative durations (a 'time in the past' threshold)", "elapsed time is the exact difference of the two instants, not time.Duration's saturated value"}
+	c.Assumptions = []string{"elapsed time is the exact difference of the two instants, not time.Duration's saturated value"}
 	maxD := big.NewInt(math.MaxInt64)
-	ths := []time.Duration{0, 1, time.Second, time.Hour, 100 * 365 * 24 * time.Hour, math.MaxInt64 - 1, math.MaxInt64}
+	ths := []time.Duration{0, 1, time.Second, time.Hour, 100 * 365 * 24 * time.Hour, math.MaxInt64 - 1, math.MaxInt64, -1, -time.Second, -100 * 365 * 24 * time.Hour, math.MinInt64 + 1, math.MinInt64}
 	nows := []time.Time{time.Unix(1700000000, 123456789), time.Unix(0, 0), time.Unix(4102444800, 999999999), {}, time.Time{}.Add(30 * time.Minute), time.Time{}.Add(1)}
 	year := int64(365 * 24 * 3600)
 	cands := func(now time.Time, th time.Duration) []time.Time {
 		// the zero instant also in forms that are not the zero struct: with a location attached
 		out := []time.Time{{}, time.Unix(0, 0), now, now.Add(-1), now.Add(1), time.Time{}.In(time.FixedZone("east", 3600)), time.Unix(-62135596800, 0)}
-		if th > 0 && th < math.MaxInt64/2 {
+		if th != 0 && th < math.MaxInt64/2 && th > math.MinInt64/2 {
 			out = append(out, now.Add(-th+1), now.Add(-th), now.Add(-th-1), now.Add(th), now.Add(-2*th))
 		}
 		for _, y := range []int64{100, 292, 293, 300, 10000} {
@@ -70,6 +70,13 @@ func runC21(c *ev.Ctx) {
 				edge = true
 			}
 		}
+		// a guarded instant so far in the future that the elapsed time saturates at the smallest duration
+		far := false
+		for _, t := range f {
+			if new(big.Int).Sub(nowNs, c21ns(t)).Cmp(big.NewInt(math.MinInt64)) < 0 {
+				far = true
+			}
+		}
 		desc := func() map[string]interface{} {
 			return map[string]interface{}{"now": now.String(), "threshold_ns": int64(th), "peers": peers, "last_connected": f[0].String(), "p2p_synced": f[1].String(), "became_validator": f[2].String(),
 				"ext_created": f[3].String(), "ext_detected": f[4].String(), "returned_wait_ns": int64(wait), "returned_err": fmt.Sprint(err)}
@@ -83,14 +90,12 @@ func runC21(c *ev.Ctx) {
 				cls = "emission-refused-although-all-conditions-hold"
 			}
 			// specific fingerprint of the known overflow shape: a timestamp so far in the future that the elapsed time saturates
-			far := false
-			for _, t := range f {
-				if new(big.Int).Sub(nowNs, c21ns(t)).Cmp(new(big.Int).Neg(maxD)) < 0 {
-					far = true
-				}
-			}
 			if err == nil && far {
 				cls = "emission-permitted-when-timestamp-beyond-292y-in-future"
+			}
+			if err == nil && far && th == math.MinInt64 {
+				// listed finding: the saturated elapsed time equals the threshold, so the instant is not counted as too recent
+				cls = "threshold-min-duration-with-instant-beyond-292y-in-future"
 			}
 			c.Violation(cls, m)
 			return
@@ -106,6 +111,10 @@ func runC21(c *ev.Ctx) {
 				cls := "wait-not-the-longest-remaining-time"
 				if maxRemain.Cmp(maxD) > 0 {
 					cls = "wait-not-capped-at-max-duration"
+				}
+				if th < 0 && far && wait > 0 && big.NewInt(int64(wait)).Cmp(want) < 0 {
+					// listed finding: remaining time computed from the saturated elapsed time
+					cls = "negative-threshold-with-instant-beyond-292y-in-future-wait-too-short"
 				}
 				c.Violation(cls, m)
 				return
@@ -123,8 +132,21 @@ func runC21(c *ev.Ctx) {
 		if par != wantPar {
 			m := desc()
 			m["startup"], m["detect_parallel"], m["oracle"] = startup.String(), par, wantPar
-			c.Violation("parallel-instance-detection-wrong", m)
+			cls := "parallel-instance-detection-wrong"
+			if th == math.MinInt64 && !par && el.Cmp(big.NewInt(math.MinInt64)) < 0 {
+				cls = "threshold-min-duration-with-instant-beyond-292y-in-future"
+			}
+			c.Violation(cls, m)
 			return
+		}
+		if th < 0 {
+			c.Count("records_with_negative_threshold", 1)
+			if par {
+				c.Count("parallel_instances_reported_under_negative_threshold", 1)
+			}
+			if err != nil && peers > 0 && !f[1].IsZero() {
+				c.Count("time_based_refusals_under_negative_threshold", 1)
+			}
 		}
 		if edge {
 			c.Nontrivial(ev.Hash(now.UnixNano(), int64(th), peers, f[0].UnixNano(), f[1].UnixNano(), f[2].UnixNano(), f[3].UnixNano(), f[4].UnixNano(), f[0].Unix(), f[3].Unix()))
